@@ -326,15 +326,33 @@ def shapes_stream(ctx, res):
         s.stages = cc.ListField(cc.DictField(cc.StringField(), cc.ListField(cls)), default=lambda: [])
         s.zones = cc.DictField(cc.StringField(), cc.DictField(cc.StringField(), cc.ListField(cls)), default=dict)
         s.sub.builtin = cc.ListField(cls, default=(mk(cls, 3),))
+        # nulls where a group, a stage or a zone would be: they stay where they are and switch nothing off for their neighbours
+        s.groups = cc.ListField(cc.ListField(cls), default=lambda: [])
+        s.sub.deep = cc.ListField(cc.ListField(cc.ListField(cls)), default=lambda: [])
+        s.optional = cc.DictField(cc.StringField(), cc.ListField(cls), default=dict)
         cfg = s()
         try:
+            cfg.groups = [[mk(cls, 13)], None, [mk(cls, 14), mk(cls, 15)], None, []]
+            cfg.sub.deep = [None, [[mk(cls, 16)], None], [None, [mk(cls, 17)]], [[], [mk(cls, 18)]]]
+            cfg.optional = {"a": None, "b": [mk(cls, 19)], "c": None, "d": [mk(cls, 20)]}
             cfg.tenants = {7: [mk(cls, 4)], "7": [mk(cls, 5)], "other": [mk(cls, 6)]}
             cfg.stages = [{"web": [mk(cls, 7)], "db": [mk(cls, 8)]}, {"web": [mk(cls, 9)]}]
             cfg.zones = {"eu": {"a": [mk(cls, 10)]}, "us": {"b": [mk(cls, 11), mk(cls, 12)]}}
         except Exception as e:  # noqa
             res.case(None, kind="shapes:setup-%s" % type(e).__name__)
             continue
-        secrets = ["PIN-%04d-secret" % n for n in range(1, 13)] + ["TOKEN-%04d-secret" % n for n in range(1, 13)]
+        secrets = ["PIN-%04d-secret" % n for n in range(1, 21)] + ["TOKEN-%04d-secret" % n for n in range(1, 21)]
+
+        def strip(node):
+            if isinstance(node, dict):
+                return {k: strip(v) for k, v in node.items() if k not in ("pin", "token")}
+            if isinstance(node, (list, tuple)):
+                return [strip(v) for v in node]
+            return node
+        try:
+            unmasked = strip(cfg.to_tree())
+        except Exception:  # noqa
+            unmasked = None
         for mask in ("*", "<hidden>", ""):
             case = {"stream": "shapes", "config_type": typed, "mask": mask}
             res.case(stable(case), kind="shapes")
@@ -349,6 +367,10 @@ def shapes_stream(ctx, res):
             if leaked or cipher:
                 res.violate("C10:leak-in-tree", "a sensitive value (or its ciphertext instead of the mask) of a configuration held below containers appears in the masked tree",
                             dict(case, leaked=leaked[:4], ciphertext_instead_of_mask=cipher))
+                continue
+            if unmasked is not None and strip(tree) != unmasked:
+                res.violate("C10:nonsensitive-changed", "under a mask, what is not sensitive is not rendered exactly as without a mask (configurations below containers with nulls)",
+                            dict(case))
                 continue
             for fmt in ("json", "yaml", "pickle", "xml", "bson"):
                 try:
